@@ -402,7 +402,14 @@ static void p2_run(uint64_t idx, vh_rng_t * rng) {
 /* ---- grammar-generated long tokens ----------------------------------------------------------------------------- */
 static void gen_digits(vh_buf_t * b, vh_rng_t * rng, size_t n, const char * set) { size_t k = strlen(set); while (n--) vh_buf_addc(b, set[vh_below(rng, (uint32_t) k)]); }
 static void gen_ws(vh_buf_t * b, vh_rng_t * rng, int maxn) { int n = (int) vh_below(rng, (uint32_t) maxn + 1); while (n--) vh_buf_addc(b, vh_chance(rng, 1, 3) ? '\t' : ' '); }
-static size_t biglen(vh_rng_t * rng, size_t big) { return vh_chance(rng, 1, 3) ? big : (vh_chance(rng, 1, 2) ? vh_below(rng, (uint32_t) big) + 1 : vh_below(rng, 12) + 1); }
+static size_t biglen_(vh_rng_t * rng, size_t big);
+/* run lengths at the wrap-around points of 8-bit counters and around usual buffer sizes get their own share */
+static size_t biglen(vh_rng_t * rng, size_t big) {
+    static const size_t edge[] = { 63, 64, 65, 127, 128, 129, 255, 256, 257, 511, 512, 513, 768 };
+    if (vh_chance(rng, 1, 4)) { size_t e = edge[vh_below(rng, sizeof edge / sizeof edge[0])]; if (e == 256 || e == 512 || e == 768) vh_count("long.runs_of_a_multiple_of_256", 1); return e; }
+    return biglen_(rng, big);
+}
+static size_t biglen_(vh_rng_t * rng, size_t big) { return vh_chance(rng, 1, 3) ? big : (vh_chance(rng, 1, 2) ? vh_below(rng, (uint32_t) big) + 1 : vh_below(rng, 12) + 1); }
 static void gen_mnemonic(vh_buf_t * b, vh_rng_t * rng, size_t n) {
     vh_buf_addc(b, "aZqB"[vh_below(rng, 4)]);
     while (n-- > 1) vh_buf_addc(b, "abcXYZ0189__"[vh_below(rng, 12)]);
@@ -612,6 +619,7 @@ int main(int argc, char ** argv) {
     vh_require("unit.term_nl"); vh_require("unit.term_semicolon"); vh_require("unit.term_end");
     vh_require("mode.len_cut.text_continues_after_cut"); vh_require("input.with_8bit_byte"); vh_require("input.with_nul_byte"); vh_require("input.longer_than_255");
     vh_require("string.incomplete"); vh_require("alldata.dangling_comma");
+    vh_require("long.runs_of_a_multiple_of_256");
     vh_require("longlist.units");
     return vh_main(argc, argv, "C13", phases, 7);
 }
